@@ -299,3 +299,30 @@ stf! { step_spread_flag_expr: false; step_spread_flag_object: true; }
 #[kani::stub(crate::util::transform_text, tt_marker)] #[kani::stub(crate::util::is_jsx_attr_value_constant, const_model)] #[kani::stub(alloc::fmt::format, fmt_marker)]
 #[kani::stub_verified(crate::util::is_on)]
 fn step_listener_modular() { step_plain::<8, 0, false, false>() }
+
+/// C12 (2-safety, unit level): the props a plain attribute / a spread contributes do not depend on `optimize`; only the
+/// hint analysis (which is consumed under optimize alone, U-emit-hints) may.
+fn optimize_frame_plain<const NCLS: i64>() {
+    let name = ncls_name(NCLS, false);
+    let comp: bool = kani::any();
+    let base = any_options();
+    let mut o1 = base.clone(); o1.optimize = true;
+    let mut o2 = base; o2.optimize = false;
+    let mut v1 = visitor(o1);
+    let mut v2 = visitor(o2);
+    let c: bool = kani::any();
+    unsafe { CONST_ORACLE = c; }
+    let a = jsx_attr(name, Some(container(opaque(1))));
+    let mut s1 = AttrState::initial();
+    let mut s2 = AttrState::initial();
+    v1.x_plain_arm(&mut s1, &a, comp);
+    v2.x_plain_arm(&mut s2, &a, comp);
+    assert!(s1.props.len() == s2.props.len() && s1.merge_args.len() == s2.merge_args.len(), "C12: optimize does not change which props / merge arguments an attribute contributes");
+    if s1.props.len() == 1 { assert!(prop_key_str(&s1.props[0]) == prop_key_str(&s2.props[0]) && matches!((prop_value(&s1.props[0]), prop_value(&s2.props[0])), (Some(x), Some(y)) if is_opaque(x, 1) && is_opaque(y, 1)), "C12: same prop key and value with optimize on and off"); }
+    std::mem::forget(s1); std::mem::forget(s2); std::mem::forget(a); std::mem::forget(v1); std::mem::forget(v2);
+}
+macro_rules! of_h { ($($n:ident: $k:expr;)*) => { $(#[kani::proof] #[kani::unwind(3)]
+    #[kani::stub(std::ptr::drop_in_place, no_drop)] #[kani::stub(core::ptr::drop_glue, no_glue)]
+    #[kani::stub(crate::util::transform_text, tt_marker)] #[kani::stub(crate::util::is_jsx_attr_value_constant, const_model)] #[kani::stub(alloc::fmt::format, fmt_marker)]
+    fn $n() { optimize_frame_plain::<$k>() })* } }
+of_h! { optframe_class: 1; optframe_on: 4; optframe_listener: 8; optframe_other: 9; }
